@@ -98,7 +98,7 @@ let canon_doc (d : document) : string =
 (* the canonical form of a request WITH the schema it is sent to: per object type the selection set can be evaluated on, the
    fields it collects there (inline fragments resolved as CollectFields does, fields of one response key merged), as a set.
    Two requests with the same canonical form ask every object the subgraph can return for the same fields. *)
-let canon_doc_t (sc : schema) (d : document) : string =
+let canon_gen (sc : schema) : (bytes -> selection list -> string) * (document -> string) =
   let find_td n = List.find_opt (fun td -> td.td_name = n) sc.s_types in
   let rec named = function TNamed t -> t | TList t | TNonNull t -> named t in
   let is_entity_ty t = (sb t = "_Entity") in
@@ -140,7 +140,7 @@ let canon_doc_t (sc : schema) (d : document) : string =
        | [c] when (match find_td ty with Some { td_kind = KObject; _ } -> true | _ -> false) -> one c
        | _ -> String.concat "" (List.map (fun c -> "<" ^ sb c ^ ">" ^ one c) ctypes))
   and sel_key0 (s : selection) = match s with SField (a, n, _, _, _) -> (match a with Some x -> sb x | None -> sb n) | SSpread (n, _) -> "..." ^ sb n | SInline _ -> "" in
-  String.concat " ; " (List.map (function
+  (sels, fun d -> String.concat " ; " (List.map (function
       | DOp o ->
         let used = List.concat_map sel_vars o.op_sels in
         let vds = List.filter (fun vd -> List.mem (sb vd.vd_name) used) o.op_vars in
@@ -150,7 +150,9 @@ let canon_doc_t (sc : schema) (d : document) : string =
                                        | OpSubscription -> (match sc.s_subscription with Some m -> m | None -> bs "Subscription")) in
         (match o.op_kind with OpQuery -> "query" | OpMutation -> "mutation" | OpSubscription -> "subscription") ^
         "(" ^ String.concat "," vds ^ ")" ^ show_dirs o.op_dirs ^ sels root o.op_sels
-      | DFrag f -> "fragment " ^ sb f.fr_name ^ " on " ^ sb f.fr_type ^ sels f.fr_type f.fr_sels) d)
+      | DFrag f -> "fragment " ^ sb f.fr_name ^ " on " ^ sb f.fr_type ^ sels f.fr_type f.fr_sels) d))
+let canon_doc_t (sc : schema) (d : document) : string = snd (canon_gen sc) d
+let canon_sels_t (sc : schema) (ty : bytes) (l : selection list) : string = fst (canon_gen sc) ty l
 
 (* unordered JSON equality (object member order is not part of a JSON value) *)
 let rec json_ueq (a : json) (c : json) : bool =
@@ -226,6 +228,14 @@ let entity_doc_parts (d : document) : string * selection list =
      | _ -> raise (Outside "entity_doc_shape"))
   | _ -> raise (Outside "entity_doc_shape")
 
+(* all the per-type parts of an entity request:  _entities(..) { ... on A { } ... on B { } } *)
+let entity_doc_parts_all (d : document) : (string * selection list) list =
+  match d with
+  | [DOp { op_kind = OpQuery; op_sels = [SField (None, n, [(an, VVar vn)], [], inner)]; _ }]
+    when sb n = "_entities" && sb an = "representations" && sb vn = "representations" ->
+    List.map (function SInline (Some t, [], sel) -> (sb t, sel) | _ -> raise (Outside "entity_doc_shape")) inner
+  | _ -> raise (Outside "entity_doc_shape")
+
 (* the representation template: one resolve segment, an object of leaves *)
 let repr_fields (f : rfetch) (t : string) : string list =
   match f.f_reprs with
@@ -235,12 +245,12 @@ let repr_fields (f : rfetch) (t : string) : string list =
        (match node_of nd with
         | NObj (_, _, _, flds) ->
           List.map (fun (n, on, v) ->
-              (match on with Some [t'] when t' = t -> () | Some _ -> raise (Outside "abstract_representation") | None -> ());
-              (match v with
+              if (match on with Some ts -> not (List.mem t ts) | None -> false) then None else
+              Some (match v with
                | NLeaf (_, [p], _) when p = n -> n
                | NLeaf _ -> raise (Outside "representation_path")
                | NObj _ -> raise (Outside "nested_key")
-               | _ -> raise (Outside "representation_shape"))) flds
+               | _ -> raise (Outside "representation_shape"))) flds |> List.filter_map (fun x -> x)
         | _ -> raise (Outside "representation_shape"))
      | _ -> raise (Outside "representation_shape"))
   | [] -> raise (Outside "representation_shape")
@@ -418,10 +428,12 @@ let translate3 (super : schema) (subs : (string * schema) list) (op : document) 
    if List.length (List.sort_uniq compare rs) <> List.length rs then feat "two_root_fetches_on_one_subgraph");
   if !feats <> [] then raise (Outside (String.concat "+" (List.sort compare !feats)));
   List.iter (fun f -> if index_of_sub subs f.f_sub = None then raise (Outside "introspection_or_unknown_datasource")) fetches;
-  let ent_sel_of (f : rfetch) = match f.f_doc with Some d -> entity_doc_parts d | None -> raise (Outside "entity_doc_shape") in
+  (* an entity request may carry one part per entity type ( ... on A { } ... on B { } ): the model sends one request per type *)
+  let ent_parts (f : rfetch) = match f.f_doc with Some d -> entity_doc_parts_all d | None -> raise (Outside "entity_doc_shape") in
   let starts_tn sel = match sel with SField (None, n, [], [], []) :: _ when sb n = "__typename" -> true | _ -> false in
-  let tn = others <> [] && List.for_all (fun f -> starts_tn (snd (ent_sel_of f))) others in
-  if not tn && List.exists (fun f -> starts_tn (snd (ent_sel_of f))) others then raise (Translate "mixed_typename_prefix");
+  let all_parts = List.concat_map (fun f -> List.map snd (ent_parts f)) others in
+  let tn = others <> [] && List.for_all starts_tn all_parts in
+  if not tn && List.exists starts_tn all_parts then raise (Translate "mixed_typename_prefix");
   let used = ref [] in
   let maxdepth = ref 0 in
   let is_obj tn' = (match find_type_s super tn' with Some { td_kind = KObject; _ } -> true | _ -> false) in
@@ -441,7 +453,16 @@ let translate3 (super : schema) (subs : (string * schema) list) (op : document) 
     go [] l in
   (* the annotated sub-selection of the object of type [ty] at [path], produced by fetch [src] which was asked [src_sel] for it;
      [client] and [src_sel] are field lists (flattened at [ty] below a position resolved per runtime type) *)
-  let rec build_pt (depth : int) (ty : string) (client : selection list) (path : string list) (src : rfetch) (src_sel : selection list) : ptree =
+  (* the type names on a segment of a fetch's path restrict the runtime type of the object that has the segment's field;
+     [tctx]: the runtime types of the objects along [path] (one per path element: the object that has that field) *)
+  let seg_types (f : rfetch) : string list list =
+    List.concat_map (fun (_, p, t) -> match p with [] -> [] | _ :: r -> t :: List.map (fun _ -> []) r) f.f_fetchpath in
+  let compat (f : rfetch) (tctx : string list) : bool =
+    let rec go a b = match a, b with
+      | ts :: a', c :: b' -> (ts = [] || List.mem c ts) && go a' b'
+      | _, _ -> true in
+    go (seg_types f) tctx in
+  let rec build_pt (depth : int) (ty : string) (client : selection list) (path : string list) (tctx : string list) (src : rfetch) (src_sel : selection list) : ptree =
     if depth > !maxdepth then maxdepth := depth;
     (* the sources of this position: 0 = src, then the entity fetches at this path for this type, each reading its keys off earlier sources *)
     let sources = ref [(src, src_sel)] in
@@ -451,12 +472,14 @@ let translate3 (super : schema) (subs : (string * schema) list) (op : document) 
     while !progress do
       progress := false;
       List.iter (fun f ->
-          if path_of f = path && not (List.memq f !here) && fst (ent_sel_of f) = ty then
+          if path_of f = path && not (List.memq f !here) && List.mem_assoc ty (ent_parts f) && compat f tctx then
             (* placed once every fetch it depends on is a source of this position *)
-            (if List.for_all (fun d -> List.exists (fun (g, _) -> g.f_id = d) !sources) f.f_deps then begin
+            (* (a dependency that is an entity fetch at this path with no part for this type, or for other parents, does not concern it) *)
+            (if List.for_all (fun d -> List.exists (fun (g, _) -> g.f_id = d) !sources ||
+                                       List.exists (fun g -> g.f_id = d && path_of g = path && (not (List.mem_assoc ty (ent_parts g)) || not (compat g tctx))) others) f.f_deps then begin
                let dep_srcs = List.filter (fun (_, (g, _)) -> List.mem g.f_id f.f_deps) (List.mapi (fun i x -> (i, x)) !sources) in
                here := f :: !here; if not (List.memq f !used) then used := f :: !used; progress := true;
-               let (t, sel) = ent_sel_of f in
+               let (t, sel) = (ty, List.assoc ty (ent_parts f)) in
                let selB = if tn then List.tl sel else sel in
                let si = match index_of_sub subs f.f_sub with Some i -> i | None -> raise (Translate "unknown_subgraph") in
                let ks = (match repr_fields f t with "__typename" :: ks -> ks | _ -> raise (Translate "representation_without_typename")) in
@@ -490,17 +513,25 @@ let translate3 (super : schema) (subs : (string * schema) list) (op : document) 
             | [] -> raise (Translate ("no_source_for_field:" ^ String.concat "." (path @ [key])))
             | (g, sel) :: r -> (match List.find_opt (fun x -> sel_key_s x = key) sel with Some x -> (i, g, x) | None -> find (i + 1) r) in
           let (tag, g, x) = find 0 !sources in
-          (nat_of_int tag, mk_item depth ty path g x s)
+          (nat_of_int tag, mk_item depth ty path tctx g x s)
         | SInline _ -> raise (Outside "inline_fragment_at_fetch_position")
         | SSpread _ -> raise (Outside "fragment_spread")) client in
     PT (items, !fentries)
   (* the client's field [s] of an object of type [ty] at [path]; source [g] was asked [x] for it *)
-  and mk_item (depth : int) (ty : string) (path : string list) (g : rfetch) (x : selection) (s : selection) : pitem =
+  and mk_item (depth : int) (ty : string) (path : string list) (tctx : string list) (g : rfetch) (x : selection) (s : selection) : pitem =
     match s with
     | SField (a, n, args, _, ss) ->
       let p' = path @ [response_key a n] in
       let xsel = (match x with SField (_, _, _, _, xs) -> xs | _ -> []) in
-      if ss = [] || (not (below p') && xsel = ss) then PKeep s
+      (* kept as it is when no fetch sits at or below it and the source was asked for the same selection (same canonical form) *)
+      let same_sel () =
+        xsel = ss ||
+        (match field_type super ty (sb n) with
+         | Some t -> let rec nm = function TNamed t -> t | TList t | TNonNull t -> nm t in
+           let sc' = (match List.assoc_opt g.f_sub subs with Some sc -> sc | None -> super) in
+           canon_sels_t sc' (nm t) xsel = canon_sels_t sc' (nm t) ss
+         | None -> false) in
+      if ss = [] || (not (below p') && same_sel ()) then PKeep s
       else begin
         let fty = (match field_type super ty (sb n) with Some t -> t | None -> raise (Translate "unknown_field")) in
         let rec named = function TNamed t -> sb t | TList t | TNonNull t -> named t in
@@ -510,8 +541,9 @@ let translate3 (super : schema) (subs : (string * schema) list) (op : document) 
           | TList (TNamed _) -> ShList (false, false) | TList (TNonNull (TNamed _)) -> ShList (false, true)
           | TNonNull (TList (TNamed _)) -> ShList (true, false) | TNonNull (TList (TNonNull (TNamed _))) -> ShList (true, true)
           | _ -> raise (Outside "nested_list_field") in
-        if is_obj t' && not (has_inline ss) && not (has_inline xsel) then
-          PDown (a, n, args, shape, bs t', build_pt (depth + 1) t' ss p' g xsel)
+        let has_dup l = (let ks = List.map sel_key_s l in List.length (List.sort_uniq compare ks) <> List.length ks) in
+        if is_obj t' && not (has_inline ss) && not (has_inline xsel) && not (has_dup ss) then
+          PDown (a, n, args, shape, bs t', build_pt (depth + 1) t' ss p' (tctx @ [ty]) g xsel)
         else begin
           (* resolved per runtime type: one plan tree per object type the field can return, over the selections flattened at it *)
           let ctypes = List.filter (fun td -> td.td_kind = KObject && type_applies super td.td_name (bs t')) super.s_types in
@@ -519,9 +551,9 @@ let translate3 (super : schema) (subs : (string * schema) list) (op : document) 
           let alts = List.map (fun td ->
               let c = td.td_name in
               let flat l = (match flatten super [] varsJ fuel c l with FlatOk fl -> fl | FlatBad _ -> raise (Outside "abstract_flatten")) in
-              let lc = dedup_first (flat ss) and lr = dedup_first (flat xsel) in
-              if lc <> flat ss then raise (Outside "abstract_field_selected_twice");
-              let pt = build_pt (depth + 1) (sb c) lc p' g lr in
+              (* the fields of one response key merged, as the executor runs them *)
+              let lc = gmerge (flat ss) and lr = gmerge (flat xsel) in
+              let pt = build_pt (depth + 1) (sb c) lc p' (tctx @ [ty]) g lr in
               (* the planner's own __typename: asked in front of the tree's projection when neither the client nor a key asks for it *)
               let h = not (has_tn_sel (pt_proj pt)) in
               ((c, h), pt)) ctypes in
@@ -553,7 +585,7 @@ let translate3 (super : schema) (subs : (string * schema) list) (op : document) 
             | Some [DOp ro] -> (match List.find_opt (fun x -> sel_key_s x = key) ro.op_sels with Some x -> x | None -> raise (Translate ("root_field_not_requested:" ^ key)))
             | _ -> raise (Translate "root_doc_shape")) in
         ignore args; ignore ss;
-        { r3_root = nat_of_int ri; r3_item = mk_item 0 (sb super.s_query) [] rootf x s }
+        { r3_root = nat_of_int ri; r3_item = mk_item 0 (sb super.s_query) [] [] rootf x s }
       | SInline _ -> raise (Outside "root_inline_fragment")
       | SSpread _ -> raise (Outside "root_fragment_spread")) o.op_sels in
   List.iter (fun f ->
@@ -602,7 +634,7 @@ let diagnose3 sc (subsl : schema list) vds sup kq decls rdecls (kd : nat) (ds : 
                   let fc = flatten sc [] vars fuel td.td_name csel and fr = flatten sc [] vars fuel td.td_name rsel in
                   let tnsel = SField (None, bs "__typename", [], [], []) in
                   let sh = function FlatOk l -> show l | FlatBad _ -> "<bad>" in
-                  if not (flat_is fc (pt_client sub)) then Some (Printf.sprintf "%s on %s: client selection flattened [%s] tree [%s]" p (sb td.td_name) (sh fc) (show (pt_client sub)))
+                  if not (flat_merged_is fc (pt_client sub)) then Some (Printf.sprintf "%s on %s: client selection flattened [%s] tree [%s]" p (sb td.td_name) (sh fc) (show (pt_client sub)))
                   else if not (flat_is fr (if h then tnsel :: pt_proj sub else pt_proj sub)) then Some (Printf.sprintf "%s on %s: source selection flattened [%s] tree [%s]" p (sb td.td_name) (sh fr) (show (pt_proj sub)))
                   else if not h && not (has_tn_sel (pt_proj sub)) then Some (Printf.sprintf "%s on %s: no __typename in the source's selection" p (sb td.td_name))
                   else go_pt (pred k) (p ^ "<" ^ sb td.td_name ^ ">") td.td_name sub)) sc.s_types in
@@ -712,6 +744,14 @@ let handle (x : sexp) : (string * string) list =
         let sub_schema name = (match List.assoc_opt name subs with Some sc -> sc | None -> super) in
         let cdoc name d = canon_doc_t (sub_schema name) d in
         let real_doc f = match f.f_doc with Some d -> cdoc f.f_sub d | None -> "" in
+        (* an entity request as its per-type parts (type, canonical selection, variable definitions used) *)
+        let parts_of name (d : document) : (string * string) list =
+          (try List.map (fun (ty, sel) -> (ty, canon_sels_t (sub_schema name) (bs ty) sel)) (entity_doc_parts_all d) with _ -> []) in
+        (* the model's one-type request is a part of the real request *)
+        let has_part name (md : document) (rd : document) : bool =
+          (match parts_of name md with
+           | [pt] -> List.mem pt (parts_of name rd)
+           | _ -> false) in
         List.iter (fun mr ->
             match mr with
             | MRoot3 (g, doc) ->
@@ -721,22 +761,30 @@ let handle (x : sexp) : (string * string) list =
                | _ -> add "mismatch" (Printf.sprintf "corr:C01p/plan_form (pair %s) no single real root fetch on %s" ids (sub_name g)))
             | MEntity3 (path, si, doc, rf) ->
               let p = List.map sb path in
-              (match List.filter (fun f -> path_of f = p && f.f_sub = sub_name si && cdoc (sub_name si) doc = real_doc f) t.t3_others with
+              (match List.filter (fun f -> path_of f = p && f.f_sub = sub_name si && has_part (sub_name si) doc (match f.f_doc with Some d -> d | None -> [])) t.t3_others with
                | [] ->
                  add "mismatch" (Printf.sprintf "corr:C01p/plan_form (pair %s) entity request at %s to %s: model %s has no real counterpart; real at that path: %s" ids
                                    (String.concat "." p) (sub_name si) (quote_string (cdoc (sub_name si) doc))
                                    (String.concat " | " (List.map (fun f -> f.f_sub ^ ":" ^ real_doc f) (List.filter (fun f -> path_of f = p) t.t3_others))))
                | f :: _ ->
                  (* the representation template names the model's representation fields *)
-                 let tfields = (match f.f_doc with Some d -> (try repr_fields f (fst (entity_doc_parts d)) with _ -> []) | None -> []) in
+                 let tfields = (try repr_fields f (fst (List.hd (entity_doc_parts_all doc))) with _ -> []) in
                  if List.sort compare tfields <> List.sort compare (List.map sb rf) then
                    add "mismatch" (Printf.sprintf "corr:C01p/plan_form (pair %s) representation fields at %s: model [%s] real [%s]" ids
                                      (String.concat "." p) (String.concat " " (List.map sb rf)) (String.concat " " tfields)))) mreqs;
         let n_mroot = List.length (List.filter (function MRoot3 _ -> true | _ -> false) mreqs) in
         (* a fetch below a position resolved per runtime type appears once per alternative it serves: counted once *)
-        let n_ment = List.length (List.sort_uniq compare (List.filter_map (function
-            | MEntity3 (path, si, doc, _) -> Some (List.map sb path, int_of_nat si, cdoc (sub_name si) doc)
-            | MRoot3 _ -> None) mreqs)) in
+        let n_ment = List.length (List.filter (fun f ->
+            List.exists (function
+                | MEntity3 (path, si, doc, _) -> path_of f = List.map sb path && f.f_sub = sub_name si && has_part (sub_name si) doc (match f.f_doc with Some d -> d | None -> [])
+                | MRoot3 _ -> false) mreqs) t.t3_others) in
+        List.iter (fun f ->
+            List.iter (fun pt ->
+                if not (List.exists (function
+                    | MEntity3 (path, si, doc, _) -> path_of f = List.map sb path && f.f_sub = sub_name si && parts_of (sub_name si) doc = [pt]
+                    | MRoot3 _ -> false) mreqs) then
+                  add "mismatch" (Printf.sprintf "corr:C01p/plan_form (pair %s) the part on %s of the real entity fetch at %s to %s is no request of the model" ids (fst pt) f.f_path f.f_sub))
+              (parts_of f.f_sub (match f.f_doc with Some d -> d | None -> []))) t.t3_others;
         if n_mroot <> List.length t.t3_roots then add "mismatch" (Printf.sprintf "corr:C01p/plan_form (pair %s) %d model root fetches, %d real" ids n_mroot (List.length t.t3_roots));
         if n_ment <> List.length t.t3_others then add "mismatch" (Printf.sprintf "corr:C01p/plan_form (pair %s) %d model entity fetches, %d real" ids n_ment (List.length t.t3_others));
         if t.t3_abstract && !out <> [] then begin
@@ -754,6 +802,7 @@ let handle (x : sexp) : (string * string) list =
         if not accepted then (v3_diag := diagnose3 super subsl t.t3_vds t.t3_sup kq decls rdecls kdepth t.t3_ds; raise Exit);
         let in_contract = ref 0 in
         let order_diffs = ref 0 in
+        let gw_differs = ref 0 in
         List.iter (fun r ->
             let contract = contract_b super subsl decls rdecls r.u_uni in
             if contract then incr in_contract;
@@ -763,13 +812,28 @@ let handle (x : sexp) : (string * string) list =
                 let qd = match q.r_doc with Some d -> cdoc q.r_sub d | None -> "" in
                 if not (List.exists (fun mr -> match mr with
                     | MRoot3 (g, doc) -> q.r_sub = sub_name g && cdoc q.r_sub doc = qd
-                    | MEntity3 (_, si, doc, rf) ->
-                      q.r_sub = sub_name si && cdoc q.r_sub doc = qd &&
-                      (match q.r_vars with
-                       | JObj rm -> (match List.assoc_opt (bs "representations") rm with
-                           | Some (JArr reps) -> List.for_all (function JObj m -> List.sort compare (List.map (fun (k, _) -> sb k) m) = List.sort compare (List.map sb rf) | _ -> false) reps
-                           | _ -> false)
-                       | _ -> false)) mreqs) then
+                    | MEntity3 _ -> false) mreqs) &&
+                   not (let qparts = (match q.r_doc with Some d -> parts_of q.r_sub d | None -> []) in
+                        qparts <> [] &&
+                        (* every part is a model request to this subgraph; every representation has the fields of the model request of its type *)
+                        List.for_all (fun pt -> List.exists (function
+                            | MEntity3 (_, si, doc, _) -> q.r_sub = sub_name si && parts_of q.r_sub doc = [pt]
+                            | MRoot3 _ -> false) mreqs) qparts &&
+                        (match q.r_vars with
+                         | JObj rm -> (match List.assoc_opt (bs "representations") rm with
+                             | Some (JArr reps) ->
+                               List.for_all (function
+                                   | JObj m ->
+                                     let keys = List.sort compare (List.map (fun (k, _) -> sb k) m) in
+                                     let tyn = (match List.assoc_opt (bs "__typename") m with Some (JStr t) -> sb t | _ -> "") in
+                                     List.exists (function
+                                         | MEntity3 (_, si, doc, rf) ->
+                                           q.r_sub = sub_name si && (match parts_of q.r_sub doc with [(t', c)] -> t' = tyn && List.mem (t', c) qparts | _ -> false) &&
+                                           keys = List.sort compare (List.map sb rf)
+                                         | MRoot3 _ -> false) mreqs
+                                   | _ -> false) reps
+                             | _ -> false)
+                         | _ -> false)) then
                   add "mismatch" (Printf.sprintf "corr:C01p/requests (pair %s) (uni %d) the engine's request to %s is none of the model's: %s" ids r.u_idx q.r_sub (quote_string qd))) r.u_reqs;
             (* the extracted gateway model on this universe: the real gateway's response, member for member *)
             (match find_entity r.u_uni super.s_query [] with
@@ -782,11 +846,22 @@ let handle (x : sexp) : (string * string) list =
                  (* the same value up to the ORDER of object members: the engine's response tree keeps one occurrence of a field
                     selected both under a type condition and without (the later one); counted, not a failure of the tie *)
                  incr order_diffs
-               else if not (json_eqb mj r.u_gw) || (errs <> []) <> (r.u_gwerr > 0) then
-                 add "mismatch" (Printf.sprintf "corr:C01p/gateway_model (pair %s) (uni %d) (contract %b) model %s errs %d gateway %s errs %d" ids r.u_idx contract
-                                   (sexp_of_json mj) (List.length errs) (sexp_of_json r.u_gw) r.u_gwerr));
-            if contract && not (json_ueq r.u_gw r.u_mono && (r.u_gwerr > 0) = (r.u_monoerr > 0)) then
-              add "mismatch" (Printf.sprintf "corr:C01p/accepted_but_differs (pair %s) (uni %d) gateway %s monolith %s" ids r.u_idx (sexp_of_json r.u_gw) (sexp_of_json r.u_mono))
+               else if not (json_eqb mj r.u_gw) || (errs <> []) <> (r.u_gwerr > 0) then begin
+                 let model_is_mono = json_ueq mj r.u_mono && (errs <> []) = (r.u_monoerr > 0) in
+                 let gw_is_mono = json_ueq r.u_gw r.u_mono && (r.u_gwerr > 0) = (r.u_monoerr > 0) in
+                 if contract && model_is_mono && not gw_is_mono then
+                   (* the plan is valid (theorem) and executed by the model it yields the monolith's answer, every request of the
+                      engine is one of the model's -- yet the engine's RESPONSE differs: the defect is after fetching (response
+                      tree / rendering), the gateway != monolith divergence itself is reported by the C01 data check *)
+                   incr gw_differs
+                 else
+                   add "mismatch" (Printf.sprintf "corr:C01p/gateway_model (pair %s) (uni %d) (contract %b) model %s errs %d gateway %s errs %d" ids r.u_idx contract
+                                     (sexp_of_json mj) (List.length errs) (sexp_of_json r.u_gw) r.u_gwerr)
+               end;
+               (* an instance of the theorem: on a universe of the contract the model returns the monolith's answer *)
+               if contract && not (json_ueq mj r.u_mono && (errs <> []) = (r.u_monoerr > 0)) then
+                 add "mismatch" (Printf.sprintf "corr:C01p/theorem_instance (pair %s) (uni %d) model %s errs %d monolith %s errs %d" ids r.u_idx
+                                   (sexp_of_json mj) (List.length errs) (sexp_of_json r.u_mono) r.u_monoerr))
           ) runs;
         (* self-test: defects planted into the accepted plan tree must be refused *)
         let mut_total = ref 0 and mut_rejected = ref 0 in
@@ -836,8 +911,8 @@ let handle (x : sexp) : (string * string) list =
            | Some ds' -> try_mut ds' | None -> ())
         end;
         let nt = if t.t3_others <> [] then "nt" else "tr" in
-        add "ok" (Printf.sprintf "%s (pair %s (inside) (accepted true) (theorem %s) (depth %d) (tn %b) (roots %d) (entity_fetches %d) (contract %d %d) (mutants %d %d) (abstract %b) (member_order_diffs %d) %s)"
-                    nt ids theorem t.t3_depth t.t3_tn (List.length t.t3_roots) (List.length t.t3_others) !in_contract (List.length runs) !mut_rejected !mut_total t.t3_abstract !order_diffs pair_tail);
+        add "ok" (Printf.sprintf "%s (pair %s (inside) (accepted true) (theorem %s) (depth %d) (tn %b) (roots %d) (entity_fetches %d) (contract %d %d) (mutants %d %d) (abstract %b) (member_order_diffs %d) (gateway_differs %d) %s)"
+                    nt ids theorem t.t3_depth t.t3_tn (List.length t.t3_roots) (List.length t.t3_others) !in_contract (List.length runs) !mut_rejected !mut_total t.t3_abstract !order_diffs !gw_differs pair_tail);
         Some (List.rev !out)
       with
       | Outside f -> v3_why := "outside:" ^ f; None
